@@ -130,6 +130,11 @@ def Val.hasAsdict : Val → Bool
   | .ntup _ _ _ => true
   | _ => false
 
+/-- keys of `obj._asdict()` (only read when `hasAsdict`) -/
+def Val.asdictKeys : Val → List NameId
+  | .ntup _ names _ => names
+  | _ => []
+
 /-- Python `==` between literal values (bool/int/float compare numerically) -/
 def Lit.num? : Lit → Option (Int × Nat)
   | .bool b => some (if b then 1 else 0, 1)
@@ -156,6 +161,15 @@ def MapOrigin.typingName : MapOrigin → String
   | .dict => "Dict" | .defaultDict => "DefaultDict" | .mapping => "Mapping" | .mutableMapping => "MutableMapping"
 def MapOrigin.runtimeName : MapOrigin → String
   | .dict => "dict" | .defaultDict => "defaultdict" | .mapping => "Mapping" | .mutableMapping => "MutableMapping"
+/-- `hasattr(alias, '__annotations__')` for the PEP 585 alias of the runtime class: a `types.GenericAlias` forwards the attribute to
+    its origin; the builtin static types have none, `collections.deque`, `collections.defaultdict` and the `collections.abc` classes
+    answer `{}` (observed on CPython 3.12, compared on every run by the introspection tie of harness/props/_intro_common.py) -/
+def SeqOrigin.aliasAnnotated : SeqOrigin → Bool
+  | .list | .set | .frozenset => false
+  | _ => true
+def MapOrigin.aliasAnnotated : MapOrigin → Bool
+  | .dict => false
+  | _ => true
 def seqName (sp : Spell) (o : SeqOrigin) : String := match sp with | .typing => o.typingName | .pep585 => o.runtimeName
 def mapName (sp : Spell) (o : MapOrigin) : String := match sp with | .typing => o.typingName | .pep585 => o.runtimeName
 def tupleName : Spell → String | .typing => "Tuple" | .pep585 => "tuple"
@@ -317,14 +331,16 @@ def fwdNode (env : Env) (n : NameId) (v : Val) : Raw :=
      (match v with
       | .ntup _ vnames _ => (match env.fieldNames c with
           | Option.none => .ok false
-          | some fs => if !sameKeys vnames fs then .ok false else .raisedOther)   -- field annotations of the resolved class: not modelled
+          | some fs => if !sameKeys vnames fs then .ok false
+                       else if fs.isEmpty then .ok true      -- `all([])`
+                       else .raisedOther)                    -- field annotations of the resolved class: not modelled
       | v => .ok (env.sub (v.typeOf env) c))
   | Option.none => .raisedOther                            -- NameError from eval
 
 def seqNode (env : Env) (pc : Bool) (sp0 : Spell) (o : SeqOrigin) (a : Ann) (v : Val) (elem : Bool → Val → Raw) : Raw :=
   let sp := effSpell pc sp0
   if !requiredArgsOk (seqName sp o) 1 then .raisedPed else
-  if sp == .pep585 && v.hasAsdict then .ok false else
+  if sp == .pep585 && v.hasAsdict then .ok (o.aliasAnnotated && v.asdictKeys.isEmpty) else   -- `_asdict` branch: no annotations / `{}`
   if sp == .pep585 && !(originConvertible o.runtimeName && convOk a) then .raisedOther else
   if !requiredArgsOk o.typingName 1 then .raisedPed else
   if genericChecksOrigin && !env.sub (v.typeOf env) (env.seqCls o) then .ok false else
@@ -337,7 +353,7 @@ def seqNode (env : Env) (pc : Bool) (sp0 : Spell) (o : SeqOrigin) (a : Ann) (v :
 def mapNode (env : Env) (pc : Bool) (sp0 : Spell) (o : MapOrigin) (k w : Ann) (v : Val) (key val : Bool → Val → Raw) : Raw :=
   let sp := effSpell pc sp0
   if !requiredArgsOk (mapName sp o) 2 then .raisedPed else
-  if sp == .pep585 && v.hasAsdict then .ok false else
+  if sp == .pep585 && v.hasAsdict then .ok (o.aliasAnnotated && v.asdictKeys.isEmpty) else
   if sp == .pep585 && !(originConvertible o.runtimeName && convOk k && convOk w) then .raisedOther else
   if !requiredArgsOk o.typingName 2 then .raisedPed else
   if genericChecksOrigin && !env.sub (v.typeOf env) (env.mapCls o) then .ok false else
